@@ -218,6 +218,11 @@ func init() {
 		c.Bounds["catalogue_Wplus"] = len(plus)
 		c.Bounds["fault_deviations"] = 1
 		c.Bounds["fault_kinds"] = []string{"error", "malformed JSON", "empty document"}
+		if c.Thorough() {
+			c.Bounds["pairs"] = "every W+ feature x every W feature"
+		} else {
+			c.Bounds["pairs"] = "W+ features on the 'prop' holder and non-schema W+ features x a fixed fifth of the W features (deterministic residue classes); thorough: all"
+		}
 		opts := c09OptionSets(true)
 		var k int64
 		do := func(fs []gen.Feature, idx []int, faults bool) bool {
